@@ -713,3 +713,479 @@ pub fn run_roundtrip(ctx: &mut Ctx, args: &[String]) {
                "Prover::prove", "Verifier::verify"]),
     );
 }
+
+// ---------------------------------------------------------------------------
+// Compressed route vs direct route (C15)
+// ---------------------------------------------------------------------------
+
+/// circuit whose selector values come from a list (symbolic selector constants and/or every
+/// entry of the built-in scalar dictionary), one general gate per 6 values
+#[derive(Clone, Default)]
+pub struct ListCircuit {
+    pub sel: Vec<BlsScalar>,
+    pub pis: usize,
+    pub custom: bool,
+}
+
+impl Circuit for ListCircuit {
+    fn circuit(&self, c: &mut Composer) -> Result<(), Error> {
+        let a = c.append_witness(BlsScalar::from(3u64));
+        let b = c.append_witness(BlsScalar::from(5u64));
+        let d = c.append_witness(BlsScalar::from(7u64));
+        let mut acc = a;
+        for (j, ch) in self.sel.chunks(6).enumerate() {
+            let k = |i: usize| ch.get(i).copied().unwrap_or(BlsScalar::one());
+            let mut g = Constraint::new().mult(k(0)).left(k(1)).right(k(2)).fourth(k(3)).constant(k(4)).a(acc).b(b).d(d);
+            if j < self.pis {
+                g = g.public(k(5));
+            }
+            // output selector -1 so that the composer can always solve for the output
+            acc = c.gate_add(g);
+        }
+        if self.custom {
+            c.component_range_bits::<6>(a);
+            let p = c.component_mul_generator(b, dusk_jubjub::GENERATOR_EXTENDED)?;
+            let q = c.component_add_point(p, p);
+            c.assert_equal_point(q.into(), q.into());
+        }
+        Ok(())
+    }
+}
+
+/// `compress_routes <nsym> <pis> <custom> <table 0|1> <hades 0|1>`
+pub fn run_compress_routes(ctx: &mut Ctx, args: &[String]) {
+    use crate::kernels::ScriptedRng;
+    let nsym: usize = args[0].parse().unwrap();
+    let pis: usize = args[1].parse().unwrap();
+    let custom = args[2] == "1";
+    let table = args[3] == "1";
+    let hades = args[4] == "1";
+    #[cfg(feature = "sym")]
+    {
+        dusk_bls12_381::sym::set_transcript_symbolic(true);
+        dusk_bls12_381::sym::begin_run(&[], false);
+    }
+    let mut sel: Vec<BlsScalar> = (0..nsym).map(|i| ctx.var(&format!("sel{i}"))).collect();
+    let dict = Composer::verif_compress_scalar_table(hades);
+    // the dictionary itself: indices 0..len, each exactly once
+    let mut idx: Vec<usize> = dict.iter().map(|(_, i)| *i).collect();
+    idx.sort();
+    let injective = idx.iter().enumerate().all(|(k, i)| k == *i);
+    if table {
+        let mut d = dict.clone();
+        d.sort_by_key(|(_, i)| *i);
+        sel.extend(d.iter().map(|(s, _)| *s));
+        // also values adjacent to dictionary entries (must NOT be confused with them)
+        sel.extend(d.iter().take(16).map(|(s, _)| *s + BlsScalar::one()));
+    }
+    let circuit = ListCircuit { sel, pis, custom };
+    let mut direct = Composer::initialized();
+    circuit.circuit(&mut direct).expect("circuit");
+    let n = direct.constraints();
+    let mut srs_rng = ScriptedRng::with_prefix(ctx, "srs", 8);
+    let pp = PublicParameters::setup((n + 6).next_power_of_two() + 6, &mut srs_rng).expect("setup");
+    let compressed = direct.clone().verif_compress(hades);
+    let a = Compiler::compile_with_circuit(&pp, b"verif-routes", &circuit);
+    let b = Compiler::compile_with_compressed(&pp, b"verif-routes", &compressed);
+    let mut flags = serde_json::Map::new();
+    flags.insert("dictionary_indices_are_a_permutation".into(), json!(injective));
+    match (a, b) {
+        (Ok((p1, v1)), Ok((p2, v2))) => {
+            flags.insert("prover_identical".into(), json!(p1.to_bytes() == p2.to_bytes()));
+            flags.insert("verifier_identical".into(), json!(v1.to_bytes() == v2.to_bytes()));
+        }
+        (x, y) => {
+            flags.insert("both_routes_succeed".into(), json!(format!("{:?} / {:?}", x.err(), y.err())));
+        }
+    }
+    // decompressed composer == original composer, gate by gate
+    match Composer::verif_decompress(&compressed, n) {
+        Ok(back) => {
+            let (g1_, w1, p1) = direct.verif_snapshot();
+            let (g2_, w2, p2) = back.verif_snapshot();
+            // wires are compared up to a renaming (decompression renumbers witnesses in order of
+            // first appearance): canonical labels = order of first use
+            let canon = |g: &Vec<([BlsScalar; 11], [usize; 4])>| {
+                let mut m = std::collections::HashMap::new();
+                g.iter().map(|(s, w)| (*s, w.map(|x| { let k = m.len(); *m.entry(x).or_insert(k) }))).collect::<Vec<_>>()
+            };
+            let (g1_, g2_) = (canon(&g1_), canon(&g2_));
+            flags.insert("decompressed_gates_identical".into(), json!(g1_ == g2_));
+            if g1_ != g2_ {
+                let k = g1_.iter().zip(g2_.iter()).position(|(a, b)| a != b);
+                ctx.out_json("first_gate_difference", json!({"row": k, "lens": [g1_.len(), g2_.len()],
+                    "direct": k.map(|k| format!("{:?}", (g1_[k].0.iter().map(crate::hex).collect::<Vec<_>>(), g1_[k].1))),
+                    "decompressed": k.map(|k| format!("{:?}", (g2_[k].0.iter().map(crate::hex).collect::<Vec<_>>(), g2_[k].1)))}));
+            }
+            flags.insert("decompressed_public_input_rows_identical".into(),
+                         json!(p1.iter().map(|x| x.0).collect::<Vec<_>>() == p2.iter().map(|x| x.0).collect::<Vec<_>>()));
+            flags.insert("decompressed_witness_count_identical".into(), json!(w1.len() == w2.len()));
+        }
+        Err(e) => {
+            flags.insert("decompress_at_exact_capacity".into(), json!(format!("Err({:?})", e)));
+        }
+    }
+    ctx.out_json("constraints", json!(n));
+    ctx.out_json("dictionary", json!(dict.len()));
+    ctx.out_json("compressed_bytes", json!(compressed.len()));
+    #[cfg(feature = "sym")]
+    {
+        let _ = dusk_bls12_381::sym::end_run();
+        ctx.out_json("nodes_in_arena", json!(dusk_bls12_381::sym::node_count()));
+    }
+    ctx.out_json("flags", Value::Object(flags));
+    ctx.deps_only = true;
+    ctx.meta.insert("functions".into(), json!(["CompressedCircuit::from_composer", "scalar_map", "CompressedCircuit::from_bytes",
+        "CompressedCircuit::unpack_bounded", "CompressedCircuit::validate_indices", "Composer::from_bytes",
+        "Compiler::compile_with_compressed", "Compiler::compile_with_circuit", "Prover::to_bytes", "Verifier::to_bytes"]));
+}
+
+// ---------------------------------------------------------------------------
+// Proof decoder canonicity (C16): arbitrary, possibly non-canonical scalar encodings
+// ---------------------------------------------------------------------------
+
+/// 32 bytes for the integer v + kappa*r (kappa = 0: canonical).  Symbolic build: a tagged
+/// string on which the canonicity test of `BlsScalar::from_bytes` is the decision kappa == 0.
+/// Real build: the little-endian integer, kappa in {0, 1} taken from the environment.
+pub fn noncanonical_scalar_bytes(ctx: &mut Ctx, name: &str) -> [u8; 32] {
+    let v = ctx.var(name);
+    #[cfg(feature = "sym")]
+    if !ctx.concrete {
+        let k = ctx.var(&format!("{name}_kappa"));
+        return dusk_bls12_381::sym::noncanonical_bytes(&v, &k);
+    }
+    let kappa_set = ctx
+        .env_override
+        .as_ref()
+        .and_then(|e| e.get(&format!("{name}_kappa")))
+        .and_then(|v| v.as_str())
+        .map(|h| h.trim_start_matches('0') != "")
+        .unwrap_or(false);
+    let mut b = v.to_bytes();
+    if kappa_set {
+        // add r (little-endian, 256-bit; v + r < 2^256 because v < r < 2^255)
+        const R_LE: [u64; 4] = [0xffff_ffff_0000_0001, 0x53bd_a402_fffe_5bfe, 0x3339_d808_09a1_d805, 0x73ed_a753_299d_7d48];
+        let mut carry = 0u128;
+        for i in 0..4 {
+            let x = u64::from_le_bytes(<[u8; 8]>::try_from(&b[8 * i..8 * i + 8]).unwrap()) as u128 + R_LE[i] as u128 + carry;
+            b[8 * i..8 * i + 8].copy_from_slice(&(x as u64).to_le_bytes());
+            carry = x >> 64;
+        }
+    }
+    b
+}
+
+/// `proof_canon`: every path of `Proof::from_bytes` on 11 arbitrary group elements and 15
+/// arbitrary 256-bit integers; on accepting paths the re-encoding is compared slot by slot.
+pub fn run_proof_canon(ctx: &mut Ctx, _args: &[String]) {
+    let mut bytes = vec![];
+    for i in 0..11 {
+        bytes.extend_from_slice(&g1(ctx, &format!("pc{i}")).to_bytes());
+    }
+    for i in 0..15 {
+        bytes.extend_from_slice(&noncanonical_scalar_bytes(ctx, &format!("pe{i}")));
+    }
+    let mut arr = [0u8; Proof::SIZE];
+    arr.copy_from_slice(&bytes);
+    #[cfg(feature = "sym")]
+    let kappas: Vec<Value> = (0..15)
+        .map(|i| {
+            let k = ctx.var(&format!("pe{i}_kappa"));
+            ctx.scalar_json(&k)
+        })
+        .collect();
+    #[cfg(feature = "sym")]
+    ctx.out_json("kappas", Value::Array(kappas));
+    crate::kernels::with_paths(ctx, "decode", true, |_ctx| match Proof::from_bytes(&arr) {
+        Ok(p) => {
+            let out = p.to_bytes();
+            // slot-wise comparison; a scalar slot matches when it carries the same value node
+            // (the kappa half of the tag is what the path condition has to force to zero)
+            let mut same = out[..528] == arr[..528];
+            #[allow(unused_mut)]
+            let mut identical = out[..] == arr[..];
+            for i in 0..15 {
+                let (a, b) = (&out[528 + 32 * i..560 + 32 * i], &arr[528 + 32 * i..560 + 32 * i]);
+                #[cfg(feature = "sym")]
+                {
+                    let pa = dusk_bls12_381::sym::noncanonical_parts(a);
+                    let pb = dusk_bls12_381::sym::noncanonical_parts(b);
+                    same &= match (pa, pb) {
+                        (Some(x), Some(y)) => x.0 == y.0,
+                        _ => a == b,
+                    };
+                }
+                #[cfg(not(feature = "sym"))]
+                {
+                    same &= a == b;
+                }
+            }
+            json!({"accepted": true, "reencoded_values_match": same, "reencoded_bytes_identical": identical})
+        }
+        Err(e) => json!({"accepted": false, "error": format!("{:?}", e)}),
+    });
+    ctx.meta.insert("functions".into(), json!(["Proof::from_bytes", "ProofEvaluations::from_bytes", "Proof::to_bytes",
+        "Commitment / G1Affine (de)serialization (group model)", "BlsScalar::from_bytes (canonicity as a decision)"]));
+}
+
+// ---------------------------------------------------------------------------
+// Checked decoders admit only valid group elements (C17)
+// ---------------------------------------------------------------------------
+
+/// One group element that may be INVALID: `a*G + t*T + c*O` (dlog a, torsion component t,
+/// off-curve component c).  Symbolic build: a dlog-model node with the formal variables TAU/OMEGA
+/// on which `is_torsion_free` / `is_on_curve` are decisions.  Real build: a concrete element built
+/// from the environment (`<name>_t` in {0, 1, r-1}: none, +Q, -Q for a fixed point Q on the curve
+/// outside the subgroup; `<name>_c` non-zero: an off-curve raw point / an undecodable x).
+pub struct Elem {
+    pub name: String,
+    pub grp: u8,
+    pub nodes: Value,
+    pub bytes: Vec<u8>,
+    /// real build: the element is invalid by construction
+    pub invalid: bool,
+}
+
+fn env_flag(ctx: &Ctx, key: &str) -> u8 {
+    // 0: zero, 1: the value one, 2: any other non-zero value (treated as -1)
+    let v = ctx.env_override.as_ref().and_then(|e| e.get(key)).and_then(|v| v.as_str()).map(|s| s.trim_start_matches('0').to_string());
+    match v.as_deref() {
+        None | Some("") => 0,
+        Some("1") => 1,
+        _ => 2,
+    }
+}
+
+fn g1_outside_subgroup() -> G1Affine {
+    // smallest x whose compressed encoding decodes to a curve point outside the subgroup
+    for x in 1u8..=255 {
+        let mut b = [0u8; 48];
+        b[47] = x;
+        b[0] |= 0x80;
+        if let Some(p) = Option::<G1Affine>::from(G1Affine::from_compressed_unchecked(&b)) {
+            if !bool::from(p.is_torsion_free()) {
+                return p;
+            }
+        }
+    }
+    panic!("no small point outside the subgroup")
+}
+
+fn g2_outside_subgroup() -> G2Affine {
+    for x in 1u8..=255 {
+        let mut b = [0u8; 96];
+        b[95] = x;
+        b[0] |= 0x80;
+        if let Some(p) = Option::<G2Affine>::from(G2Affine::from_compressed_unchecked(&b)) {
+            if !bool::from(p.is_torsion_free()) {
+                return p;
+            }
+        }
+    }
+    panic!("no small point outside the subgroup")
+}
+
+pub fn elem(ctx: &mut Ctx, name: &str, grp: u8, raw: bool) -> Elem {
+    let a = ctx.var(&format!("{name}_a"));
+    #[cfg(feature = "sym")]
+    if !ctx.concrete {
+        let t = ctx.var(&format!("{name}_t"));
+        let c = ctx.var(&format!("{name}_c"));
+        let id = dusk_bls12_381::sym::invalid_capable_element(grp, &a, &t, &c);
+        let bytes = if grp == 1 {
+            let p = G1Affine::sym_new(id);
+            if raw { p.to_raw_bytes().to_vec() } else { p.to_bytes().to_vec() }
+        } else {
+            G2Affine::sym_new(id).to_bytes().to_vec()
+        };
+        let nodes = json!({"a": ctx.scalar_json(&a), "t": ctx.scalar_json(&t), "c": ctx.scalar_json(&c)});
+        return Elem { name: name.into(), grp, nodes, bytes, invalid: false };
+    }
+    let t = env_flag(ctx, &format!("{name}_t"));
+    let c = env_flag(ctx, &format!("{name}_c"));
+    let zero_a = env_flag(ctx, &format!("{name}_zero")) != 0;
+    let a = if zero_a { BlsScalar::zero() } else { a };
+    let mut invalid = t != 0 || c != 0;
+    let bytes = if grp == 1 {
+        let mut p = G1Affine::generator() * a;
+        let q = g1_outside_subgroup();
+        if t == 1 {
+            p += q;
+        } else if t == 2 {
+            p -= q;
+        }
+        let p = G1Affine::from(p);
+        if raw {
+            let mut b = p.to_raw_bytes().to_vec();
+            if c != 0 {
+                // off the curve: y := y + 1 (raw limbs are Montgomery words; flipping the lowest
+                // bit of the first y word changes y)
+                b[48] ^= 1;
+                let q = unsafe { G1Affine::from_slice_unchecked(&b) };
+                invalid = !bool::from(q.is_on_curve()) || t != 0;
+            }
+            b
+        } else {
+            let mut b = p.to_bytes().to_vec();
+            if c != 0 {
+                // an x without a curve point: search upwards from the encoded x
+                loop {
+                    b[47] = b[47].wrapping_add(1);
+                    let mut arr = [0u8; 48];
+                    arr.copy_from_slice(&b);
+                    if Option::<G1Affine>::from(G1Affine::from_compressed_unchecked(&arr)).is_none() {
+                        break;
+                    }
+                }
+            }
+            b
+        }
+    } else {
+        let mut p = G2Affine::generator() * a;
+        let q = g2_outside_subgroup();
+        if t == 1 {
+            p += q;
+        } else if t == 2 {
+            p -= q;
+        }
+        let mut b = G2Affine::from(p).to_bytes().to_vec();
+        if c != 0 {
+            loop {
+                b[95] = b[95].wrapping_add(1);
+                let mut arr = [0u8; 96];
+                arr.copy_from_slice(&b);
+                if Option::<G2Affine>::from(G2Affine::from_compressed_unchecked(&arr)).is_none() {
+                    break;
+                }
+            }
+        }
+        b
+    };
+    Elem { name: name.into(), grp, nodes: Value::Null, bytes, invalid: invalid || zero_a && false }
+}
+
+/// `decode_validity <decoder> <n>`: all paths of a checked decoder on group elements that may be
+/// off the curve or outside the prime-order subgroup (and, for opening keys, the identity).
+pub fn run_decode_validity(ctx: &mut Ctx, args: &[String]) {
+    use dusk_plonk::verif as hk;
+    let which = args[0].clone();
+    let n: usize = args.get(1).map(|x| x.parse().unwrap()).unwrap_or(2);
+    let mut elems: Vec<Elem> = vec![];
+    let mut bytes: Vec<u8> = vec![];
+    match which.as_str() {
+        "commit_raw" => {
+            bytes.extend_from_slice(&(n as u64).to_le_bytes());
+            for i in 0..n {
+                let e = elem(ctx, &format!("p{i}"), 1, true);
+                bytes.extend_from_slice(&e.bytes);
+                elems.push(e);
+            }
+        }
+        "commit_checked" => {
+            for i in 0..n {
+                let e = elem(ctx, &format!("p{i}"), 1, false);
+                bytes.extend_from_slice(&e.bytes);
+                elems.push(e);
+            }
+        }
+        "opening" | "pp_checked" => {
+            if which == "pp_checked" {
+                // layout of PublicParameters::to_var_bytes: opening key then commit key
+            }
+            for (nm, grp) in [("g", 1u8), ("h", 2u8), ("xh", 2u8)] {
+                let e = elem(ctx, nm, grp, false);
+                bytes.extend_from_slice(&e.bytes);
+                elems.push(e);
+            }
+            if which == "pp_checked" {
+                for i in 0..n {
+                    let e = elem(ctx, &format!("p{i}"), 1, false);
+                    bytes.extend_from_slice(&e.bytes);
+                    elems.push(e);
+                }
+            }
+        }
+        "polynomial" => {
+            for i in 0..n {
+                bytes.extend_from_slice(&noncanonical_scalar_bytes(ctx, &format!("s{i}")));
+                let k = ctx.var(&format!("s{i}_kappa"));
+                let nodes = json!({"kappa": ctx.scalar_json(&k)});
+                elems.push(Elem { name: format!("s{i}"), grp: 0, nodes, bytes: vec![], invalid: env_flag(ctx, &format!("s{i}_kappa")) != 0 });
+            }
+        }
+        "verifier" | "prover" => {
+            // a valid serialized verifier / prover of a tiny circuit (concrete parameters) in which
+            // every group element is replaced by an invalid-capable one
+            let circuit = TinyCircuit { kind: 1, a: BlsScalar::from(3u64), b: BlsScalar::from(5u64) };
+            let mut rng = crate::gadgets::ReplayRng(ctx.seed ^ 0x5eed17);
+            let pp = PublicParameters::setup(32, &mut rng).expect("setup");
+            let (prover, verifier) = Compiler::compile_with_circuit(&pp, b"validity", &circuit).expect("compile");
+            let rd = |b: &[u8], i: usize| u64::from_be_bytes(<[u8; 8]>::try_from(&b[8 * i..8 * i + 8]).unwrap()) as usize;
+            if which == "verifier" {
+                bytes = verifier.to_bytes();
+                let (label_len, vk_len) = (rd(&bytes, 0), rd(&bytes, 1));
+                let vk0 = 48 + label_len;
+                let ncomm = (vk_len - 8) / 48;
+                for i in 0..ncomm.min(if n == 0 { ncomm } else { n }) {
+                    // slots that are all zero in the honest encoding are padding, not elements
+                    if bytes[vk0 + 8 + 48 * i..vk0 + 8 + 48 * (i + 1)].iter().all(|b| *b == 0) {
+                        continue;
+                    }
+                    let e = elem(ctx, &format!("vk{i}"), 1, false);
+                    bytes[vk0 + 8 + 48 * i..vk0 + 8 + 48 * (i + 1)].copy_from_slice(&e.bytes);
+                    elems.push(e);
+                }
+                let ok0 = vk0 + vk_len;
+                let mut off = ok0;
+                for (nm, grp) in [("g", 1u8), ("h", 2u8), ("xh", 2u8)] {
+                    let e = elem(ctx, nm, grp, false);
+                    bytes[off..off + e.bytes.len()].copy_from_slice(&e.bytes);
+                    off += e.bytes.len();
+                    elems.push(e);
+                }
+            } else {
+                bytes = prover.to_bytes();
+                let (label_len, pk_len, ck_len, vk_len) = (rd(&bytes, 0), rd(&bytes, 1), rd(&bytes, 2), rd(&bytes, 3));
+                let ck0 = 48 + label_len + pk_len;
+                let npts = (ck_len - 8) / 97;
+                for i in 0..npts.min(if n == 0 { npts } else { n }) {
+                    let e = elem(ctx, &format!("p{i}"), 1, true);
+                    bytes[ck0 + 8 + 97 * i..ck0 + 8 + 97 * (i + 1)].copy_from_slice(&e.bytes);
+                    elems.push(e);
+                }
+                let vk0 = ck0 + ck_len;
+                let ncomm = (vk_len - 8) / 48;
+                for i in 0..ncomm.min(if n == 0 { ncomm } else { n }) {
+                    if bytes[vk0 + 8 + 48 * i..vk0 + 8 + 48 * (i + 1)].iter().all(|b| *b == 0) {
+                        continue;
+                    }
+                    let e = elem(ctx, &format!("vk{i}"), 1, false);
+                    bytes[vk0 + 8 + 48 * i..vk0 + 8 + 48 * (i + 1)].copy_from_slice(&e.bytes);
+                    elems.push(e);
+                }
+            }
+        }
+        _ => panic!("unknown decoder"),
+    }
+    let invalid_present = elems.iter().any(|e| e.invalid);
+    ctx.out_json("elements", Value::Array(elems.iter().map(|e| json!({"name": e.name, "grp": e.grp, "nodes": e.nodes})).collect()));
+    ctx.out_json("input_len", json!(bytes.len()));
+    ctx.out_json("invalid_element_present", json!(invalid_present));
+    crate::kernels::with_paths(ctx, "decode", true, |_ctx| {
+        let r: Result<(), String> = match which.as_str() {
+            "commit_raw" => hk::commit_key_from_raw_var_bytes(&bytes).map(|_| ()).map_err(|e| format!("{:?}", e)),
+            "commit_checked" => hk::commit_key_from_slice(&bytes).map(|_| ()).map_err(|e| format!("{:?}", e)),
+            "opening" => hk::opening_key_from_slice(&bytes).map(|_| ()).map_err(|e| format!("{:?}", e)),
+            "polynomial" => hk::polynomial_from_slice(&bytes).map(|_| ()).map_err(|e| format!("{:?}", e)),
+            "verifier" => Verifier::try_from_bytes(&bytes).map(|_| ()).map_err(|e| format!("{:?}", e)),
+            "prover" => Prover::try_from_bytes(&bytes).map(|_| ()).map_err(|e| format!("{:?}", e)),
+            _ => PublicParameters::from_slice(&bytes).map(|_| ()).map_err(|e| format!("{:?}", e)),
+        };
+        match r {
+            Ok(()) => json!({"accepted": true}),
+            Err(e) => json!({"accepted": false, "error": e}),
+        }
+    });
+    ctx.meta.insert("functions".into(), json!(["CommitKey::from_raw_var_bytes", "CommitKey::from_slice", "OpeningKey::from_slice",
+        "OpeningKey::try_new", "PublicParameters::from_slice", "G1Affine / G2Affine decoding and validity tests (group model with torsion and off-curve components)"]));
+}
